@@ -5,6 +5,7 @@
    `bin/mkprops.py`, then kept as source).  What is proved and what is partial: DESIGN.md §4. -/
 import Peppi.ShiftJis
 import Peppi.Lemmas.C19
+import Peppi.ShiftJisMore
 set_option linter.unusedVariables false
 namespace Peppi.Props.C19
 
@@ -57,5 +58,39 @@ theorem C19_nameTag_slice (T : TextOracle) (b : Bytes) (n : Nat) (hn : n < 4) (p
         = .ok (some p)) :
     p.nameTag = some (untilNul ((b.drop (352 + 16 * n)).take 16)) :=
   _root_.Peppi.C19_nameTag_slice T b n hn p h
+
+/- from `Peppi.ShiftJisMore` -/
+theorem normSpec_fullwidth (c : Nat) (h : 0xff01 ≤ c ∧ c ≤ 0xff5e) :
+    normSpec c = c - 0xff01 + 0x21 ∧ 0x21 ≤ normSpec c ∧ normSpec c ≤ 0x7e :=
+  _root_.Peppi.normSpec_fullwidth c h
+
+/- from `Peppi.ShiftJisMore` -/
+theorem normSpec_other (c : Nat) (h : ¬ normDomain c) : normSpec c = c :=
+  _root_.Peppi.normSpec_other c h
+
+/- from `Peppi.ShiftJisMore` -/
+theorem normSpec_image (c : Nat) : ¬ normDomain (normSpec c) :=
+  _root_.Peppi.normSpec_image c
+
+/- from `Peppi.ShiftJisMore` -/
+theorem normSpec_idem (c : Nat) : normSpec (normSpec c) = normSpec c :=
+  _root_.Peppi.normSpec_idem c
+
+/- from `Peppi.ShiftJisMore` -/
+theorem toNormalized_image (s : List Nat) (h : ∀ c ∈ s, isScalar c) :
+    ∃ t, toNormalized s = .ok t ∧ t.length = s.length ∧ (∀ c ∈ t, ¬ normDomain c ∧ isScalar c) ∧
+      ∀ i (hi : i < s.length), t[i]? = some (normSpec s[i]) :=
+  _root_.Peppi.toNormalized_image s h
+
+/- from `Peppi.ShiftJisMore` -/
+theorem toNormalized_fixed (s : List Nat) (h : ∀ c ∈ s, isScalar c) (hd : ∀ c ∈ s, ¬ normDomain c) :
+    toNormalized s = .ok s :=
+  _root_.Peppi.toNormalized_fixed s h hd
+
+/- from `Peppi.ShiftJisMore` -/
+theorem meleeString_cases (sjis : List UInt8 → Option (List Nat)) (field : List UInt8) :
+    (∃ s, sjis (field.takeWhile (· ≠ 0)) = some s ∧ meleeString sjis field = .ok s) ∨
+    (sjis (field.takeWhile (· ≠ 0)) = none ∧ meleeString sjis field = .err "invalid Shift JIS sequence") :=
+  _root_.Peppi.meleeString_cases sjis field
 
 end Peppi.Props.C19
